@@ -7,9 +7,17 @@ package shimagent
 //vsym:entry H09_registered_certificate_is_the_shims_own
 //vsym:replay same-harness
 //vsym:max-len 4
-//vsym:expect-cover C10.hw-accepted
-//vsym:bound H09_registered_certificate_is_the_shims_own: a hardware certificate registered from a caller-owned key blob stays what it was when the caller reuses its buffer (in no-upstream mode the listing would otherwise show arbitrary bytes, e.g. a hidden certificate) - bounds of C10's H10_addhardcert
+//vsym:expect-cover C10.hw-accepted C10.fault-surfaces
+//vsym:bound H09_registered_certificate_is_the_shims_own: a hardware certificate registered from a caller-owned key blob stays what it was when the caller reuses its buffer (in no-upstream mode the listing would otherwise show arbitrary bytes, e.g. a hidden certificate) - bounds of C10's H10_addhardcert; and a failed registration registers nothing (H10_faults)
 //vsym:assume the shim world of C07..C10
 
 // shared with C10 (the code is the shim server's)
-func H09_registered_certificate_is_the_shims_own() { H10_addhardcert() }
+func H09_registered_certificate_is_the_shims_own() {
+	if vChoose(2, "part") == 0 {
+		H10_addhardcert()
+	} else {
+		// a registration that fails (the underlying agent's listing fails)
+		// registers nothing: otherwise a hidden certificate would show up
+		H10_faults()
+	}
+}
